@@ -58,7 +58,7 @@ def main():
     args = ap.parse_args()
     if not args.jobs:
         # the thorough tier's harnesses are memory hungry (several GB each): fewer in parallel
-        args.jobs = 16 if args.tier == "quick" else 6
+        args.jobs = 16 if args.tier == "quick" else 4
     seed = int(os.environ.get("VERIF_SEED", "0") or 0)   # no random choices are made anywhere; recorded only
 
     units = registry.load()
